@@ -12,6 +12,8 @@ mod rng;
 #[cfg(feature = "internals")]
 mod sortkey;
 mod sqlrun;
+#[cfg(feature = "internals")]
+mod tok;
 
 fn main() {
     let args: Vec<String> = std::env::args().collect();
@@ -22,6 +24,8 @@ fn main() {
     let rest = &args[2..];
     let rc = match args[1].as_str() {
         "sql" => sqlrun::main(rest),
+        #[cfg(feature = "internals")]
+        "tok" => tok::main(rest),
         #[cfg(feature = "internals")]
         "sortkey" => sortkey::main(rest),
         #[cfg(feature = "internals")]
